@@ -434,11 +434,113 @@ theorem castInputs_sim (S : Sem V) (fuel : Nat) {sig : Sig} {as : List Name} {pv
 That is all the refinement theorems assume about attribute parameters: they may be passed on as keyword arguments
 (`alpha=alpha`); read as *values* they have no meaning in the plain-Python semantics of the model, and they must
 not be re-assigned (`FreeOf`). -/
-def NoAttrBind (L : Locals) : Prop := ∀ x p ty, lookup L x = some (.attr p ty) → p = x
+def AttrVal (S : Sem V) (p : Name) (ty : AttrTy) (l : Lit) : Prop :=
+  ∀ c, constOf S l = some c →
+    if ty = .bool then
+      ∃ c1, S.op "" "Constant" [] [("value_int", .ref p)] = some [c1] ∧
+        S.op "" "Cast" [some c1] [("to", .const "i:9")] = some [c]
+    else ∃ an, attrValueName ty = some an ∧ S.op "" "Constant" [] [(an, .ref p)] = some [c]
 
-/-- None of the names `ts` (the names a statement may bind) is bound to an attribute in `L`: an attribute
-parameter that is re-assigned inside a branch or a loop would be exported as a castable `Constant` (C01-D24). -/
-def FreeOf (L : Locals) (ts : List Name) : Prop := ∀ x, x ∈ ts → ∀ p ty, lookup L x ≠ some (.attr p ty)
+/-- The attribute bindings in scope are identity bindings, and every attribute parameter the closure gives a Python
+value (`S.attrLit`) is still bound to itself, the operators reading `@x` as the constant of that value (`AttrVal`:
+what `_to_onnx_var` emits for an attribute — `Constant(value_<kind>=@x)`, for a `bool` followed by a `Cast` to
+BOOL — yields what `Constant` of the literal yields). -/
+def NoAttrBind (S : Sem V) (L : Locals) : Prop :=
+  (∀ x p ty, lookup L x = some (.attr p ty) → p = x) ∧
+  (∀ x l, S.attrLit x = some l → ∃ ty, lookup L x = some (.attr x ty) ∧ AttrVal S x ty l)
+
+/-- What `_to_onnx_var` emits for an attribute parameter evaluates to the constant of its Python value, castable. -/
+theorem attrVar_sim (S : Sem V) (fuel : Nat) (env : Env V) {p : Name} {ty : AttrTy} {tgt : Name} {l : Lit}
+    {x : Name} {ns : List Node} {s s' : St} {c : V} (hv : AttrVal S p ty l) (hc : constOf S l = some c)
+    (hs : CastSub s) (h : toOnnxVar (.attr p ty) tgt s = .ok ((x, ns), s')) :
+    ∃ env', evalNodes S fuel env ns = some env' ∧ RelV S env' s'.castable x (.py l) ∧ Ext env env' s s'
+      ∧ CastSub s' := by
+  unfold toOnnxVar at h
+  mbind h with r s1 hr
+  obtain ⟨hfresh, hused, hcast⟩ := genUnique_spec hr
+  cases han : attrValueName ty with
+  | none => simp only [han] at h; exact (failM_ok h).elim
+  | some an =>
+    simp only [han] at h
+    have hv' := hv c hc
+    by_cases hb : ty = .bool
+    · rw [if_pos hb] at h hv'
+      subst hb
+      obtain ⟨c1, hop1, hop2⟩ := hv'
+      simp only [attrValueName] at han
+      cases han
+      mbind h with rb s2 hrb
+      obtain ⟨hfresh2, hused2, hcast2⟩ := genUnique_spec hrb
+      mbind h with u s3 hm
+      unfold markCastable at hm
+      cases hm
+      obtain ⟨h1, h2⟩ := pure_ok h
+      cases h1; subst h2
+      refine ⟨(env.set r c1).set x c, ?_, ⟨⟨c, hc, Env.set_same _ _ _⟩, by simp⟩, ?_, ?_⟩
+      · have e1 : evalNodes S fuel env [Node.op "" "Constant" [] [r] [("value_int", .ref p)]]
+            = some (env.set r c1) := evalNodes_op1 (by simp) hop1
+        have e2 : evalNodes S fuel (env.set r c1)
+            [Node.op "" "Cast" [some r] [x] [("to", .const "i:9")]] = some ((env.set r c1).set x c) :=
+          evalNodes_op1 (vs := [some c1]) (by simp [List.mapM_cons, Env.getOpt, Env.set_same]) hop2
+        simpa using evalNodes_seq e1 e2
+      · refine ⟨fun n hn => ?_, fun n hn => ?_⟩
+        · have hnr : n ≠ r := fun he => hfresh (he ▸ hn)
+          have hnrb : n ≠ x := fun he => hfresh2 (by rw [hused, ← he]; exact List.mem_cons_of_mem _ hn)
+          rw [Env.set_other _ _ hnrb, Env.set_other _ _ hnr]
+        · have hnrb : n ≠ x := fun he => hfresh2 (by rw [hused, ← he]; exact List.mem_cons_of_mem _ hn)
+          simp only [List.mem_cons, hcast2, hcast]
+          constructor
+          · rintro (h' | h')
+            · exact absurd h' hnrb
+            · exact h'
+          · exact Or.inr
+      · intro m hm
+        simp only [List.mem_cons, hcast2, hcast] at hm
+        rw [hused2, hused]
+        rcases hm with rfl | hm
+        · exact List.mem_cons_self
+        · exact List.mem_cons_of_mem _ (List.mem_cons_of_mem _ (hs m hm))
+    · rw [if_neg hb] at h hv'
+      obtain ⟨an', han', hop⟩ := hv'
+      rw [han] at han'
+      cases han'
+      mbind h with u s2 hm
+      unfold markCastable at hm
+      cases hm
+      obtain ⟨h1, h2⟩ := pure_ok h
+      cases h1; subst h2
+      refine ⟨env.set x c, evalNodes_op1 (by simp) hop, ⟨⟨c, hc, Env.set_same _ _ _⟩, by simp⟩, ?_, ?_⟩
+      · apply ext_set_fresh _ _ hfresh
+        intro m hm
+        simp only [List.mem_cons, hcast]
+        constructor
+        · rintro (rfl | h')
+          · exact absurd hm hfresh
+          · exact h'
+        · exact Or.inr
+      · intro m hm
+        simp only [List.mem_cons, hcast] at hm
+        rw [hused]
+        rcases hm with rfl | hm
+        · exact List.mem_cons_self
+        · exact List.mem_cons_of_mem _ (hs m hm)
+
+/-- No name of `ts` is an attribute parameter with a Python value, nor one of the variables that hold Python
+scalars (`S.pyVars`). -/
+def TFree (S : Sem V) (ts : List Name) : Prop := ∀ x, x ∈ ts → S.attrLit x = none ∧ x ∉ S.pyVars
+
+theorem TFree.sub {S : Sem V} {ts ts' : List Name} (h : TFree S ts) (hs : ∀ x, x ∈ ts' → x ∈ ts) : TFree S ts' :=
+  fun x hx => h x (hs x hx)
+
+theorem TFree.head {S : Sem V} {st : Stmt} {ss : List Stmt} (h : TFree S (targetsBlock (st :: ss))) :
+    TFree S (targetsStmt st) ∧ TFree S (targetsBlock ss) :=
+  ⟨h.sub (fun x hx => by simp [targetsBlock, hx]), h.sub (fun x hx => by simp [targetsBlock, hx])⟩
+
+/-- None of the names `ts` (the names a statement may bind, or reads as a bare right-hand side) is bound to an
+attribute in `L` — an attribute parameter that is re-assigned inside a branch or a loop would be exported as a
+castable `Constant` (C01-D24) — or is one of the Python-scalar variables. -/
+def FreeOf (S : Sem V) (L : Locals) (ts : List Name) : Prop :=
+  ∀ x, x ∈ ts → (∀ p ty, lookup L x ≠ some (.attr p ty)) ∧ x ∉ S.pyVars
 
 /-- `L'` has no attribute binding that `L` does not have (translation only ever adds value bindings). -/
 def AttrMono (L L' : Locals) : Prop := ∀ x p ty, lookup L' x = some (.attr p ty) → lookup L x = some (.attr p ty)
@@ -447,13 +549,25 @@ theorem AttrMono.refl (L : Locals) : AttrMono L L := fun _ _ _ h => h
 theorem AttrMono.trans {a b c : Locals} (h1 : AttrMono a b) (h2 : AttrMono b c) : AttrMono a c :=
   fun x p ty h => h1 x p ty (h2 x p ty h)
 
-theorem FreeOf.mono {L L' : Locals} {ts : List Name} (h : FreeOf L ts) (m : AttrMono L L') : FreeOf L' ts :=
-  fun x hx p ty hl => h x hx p ty (m x p ty hl)
+theorem FreeOf.mono {S : Sem V} {L L' : Locals} {ts : List Name} (h : FreeOf S L ts) (m : AttrMono L L') :
+    FreeOf S L' ts :=
+  fun x hx => ⟨fun p ty hl => (h x hx).1 p ty (m x p ty hl), (h x hx).2⟩
 
-theorem FreeOf.sub {L : Locals} {ts ts' : List Name} (h : FreeOf L ts) (hs : ∀ x, x ∈ ts' → x ∈ ts) : FreeOf L ts' :=
+theorem FreeOf.sub {S : Sem V} {L : Locals} {ts ts' : List Name} (h : FreeOf S L ts) (hs : ∀ x, x ∈ ts' → x ∈ ts) :
+    FreeOf S L ts' :=
   fun x hx => h x (hs x hx)
 
-theorem convAttrs_id {L : Locals} (hL : NoAttrBind L) : ∀ (attrs attrs' : List (String × AttrV)),
+theorem TFree.of_free {S : Sem V} {L : Locals} {ts : List Name} (hA : NoAttrBind S L) (hf : FreeOf S L ts) :
+    TFree S ts := by
+  intro x hx
+  refine ⟨?_, (hf x hx).2⟩
+  cases h : S.attrLit x with
+  | none => rfl
+  | some l =>
+    obtain ⟨ty, hl, _⟩ := hA.2 x l h
+    exact absurd hl ((hf x hx).1 x ty)
+
+theorem convAttrs_id {S : Sem V} {L : Locals} (hL : NoAttrBind S L) : ∀ (attrs attrs' : List (String × AttrV)),
     convAttrs L attrs = .ok attrs' → attrs' = attrs := by
   intro attrs
   induction attrs with
@@ -478,7 +592,7 @@ theorem convAttrs_id {L : Locals} (hL : NoAttrBind L) : ∀ (attrs attrs' : List
         cases b with
         | val n => simp [hl] at h
         | attr q ty =>
-          have hq : q = p := hL p q ty hl
+          have hq : q = p := hL.1 p q ty hl
           subst hq
           simp only [hl] at h
           cases hr : convAttrs L rest with
@@ -545,17 +659,34 @@ theorem pair_rel {S : Sem V} {env1 env2 : Env V} {s1 s2 : St} {l r : Name} {pa p
 
 mutual
 theorem convExpr_sim (S : Sem V) (fuel : Nat) (hConst : ∀ l, ∃ c, constOf S l = some c) (ρ : Store V)
-    (L : Locals) (hA : NoAttrBind L) : ∀ (e : Expr) (tgt : Option Name) {env : Env V} {s s' : St} {x : Name}
+    (L : Locals) (hA : NoAttrBind S L) : ∀ (e : Expr) (tgt : Option Name) {env : Env V} {s s' : St} {x : Name}
     {ns : List Node} {pv : PV V}, VisOK s.used L → StoreRel S ρ L env s.castable → CastSub s →
     evalExpr S ρ e = some pv → convExpr L e tgt s = .ok ((x, ns), s') → ExprSim S fuel env s s' x ns pv
   | .var v, tgt, env, s, s', x, ns, pv, hL, hR, hs, he, h => by
     unfold evalExpr at he
-    obtain ⟨n, hl, hr⟩ := hR v pv he
-    unfold convExpr pyVar at h
-    simp only [hl, toOnnxVar] at h
-    obtain ⟨e1, e2⟩ := pure_ok h
-    cases e1; subst e2
-    exact ⟨env, evalNodes_nil _ _ _, hr, Ext.refl _ _, hs⟩
+    cases hρ : ρ v with
+    | some pv0 =>
+      simp only [hρ] at he
+      cases he
+      obtain ⟨n, hl, hr⟩ := hR v pv hρ
+      unfold convExpr pyVar at h
+      simp only [hl, toOnnxVar] at h
+      obtain ⟨e1, e2⟩ := pure_ok h
+      cases e1; subst e2
+      exact ⟨env, evalNodes_nil _ _ _, hr, Ext.refl _ _, hs⟩
+    | none =>
+      -- an attribute parameter read as a value: `Constant(value_<kind>=@v)`, castable like a literal
+      simp only [hρ] at he
+      cases hal : S.attrLit v with
+      | none => simp [hal] at he
+      | some l =>
+        simp only [hal, Option.map_some] at he
+        cases he
+        obtain ⟨ty, hl, hval⟩ := hA.2 v l hal
+        unfold convExpr pyVar at h
+        simp only [hl] at h
+        obtain ⟨c, hc⟩ := hConst l
+        exact attrVar_sim S fuel env hval hc hs h
   | .lit l, tgt, env, s, s', x, ns, pv, hL, hR, hs, he, h => by
     unfold evalExpr at he
     cases he
@@ -763,7 +894,7 @@ theorem convExpr_sim (S : Sem V) (fuel : Nat) (hConst : ∀ l, ∃ c, constOf S 
     unfold convExpr at h
     exact (failM_ok h).elim
 theorem convArgs_sim (S : Sem V) (fuel : Nat) (hConst : ∀ l, ∃ c, constOf S l = some c) (ρ : Store V)
-    (L : Locals) (hA : NoAttrBind L) : ∀ (es : List Expr) {env : Env V} {s s' : St} {xs : List Name}
+    (L : Locals) (hA : NoAttrBind S L) : ∀ (es : List Expr) {env : Env V} {s s' : St} {xs : List Name}
     {ns : List Node} {pvs : List (PV V)}, VisOK s.used L → StoreRel S ρ L env s.castable → CastSub s →
     evalExprs S ρ es = some pvs → convArgs L es s = .ok ((xs, ns), s') →
     ∃ env', evalNodes S fuel env ns = some env' ∧ All2 (RelV S env' s'.castable) xs pvs ∧ Ext env env' s s'
@@ -821,22 +952,33 @@ theorem lookup_bindVar_same (L : Locals) (x : Name) (b : Bind) : lookup (bindVar
   | nil => simp [bindVar, lookup, Frame.find]
   | cons f fs => simp [bindVar, lookup, Frame.find]
 
-theorem NoAttrBind.bindVal {L : Locals} (h : NoAttrBind L) (x n : Name) : NoAttrBind (bindVar L x (.val n)) := by
-  intro y p ty hl
-  by_cases hy : y = x
-  · subst hy
-    rw [lookup_bindVar_same] at hl
-    cases hl
-  · rw [lookup_bindVar_ne hy] at hl
-    exact h y p ty hl
+theorem NoAttrBind.bindVal {S : Sem V} {L : Locals} (h : NoAttrBind S L) (x n : Name)
+    (hx : S.attrLit x = none) : NoAttrBind S (bindVar L x (.val n)) := by
+  refine ⟨fun y p ty hl => ?_, fun y l hy => ?_⟩
+  · by_cases hy : y = x
+    · subst hy
+      rw [lookup_bindVar_same] at hl
+      cases hl
+    · rw [lookup_bindVar_ne hy] at hl
+      exact h.1 y p ty hl
+  · have hyx : y ≠ x := fun he => by rw [he, hx] at hy; cases hy
+    obtain ⟨ty, hl, hv⟩ := h.2 y l hy
+    exact ⟨ty, by rw [lookup_bindVar_ne hyx]; exact hl, hv⟩
+
+theorem NoAttrBind.push {S : Sem V} {L : Locals} (h : NoAttrBind S L) : NoAttrBind S ([] :: L) :=
+  ⟨fun x p ty hl => h.1 x p ty (by simpa [lookup, Frame.find] using hl),
+   fun x l hx => by
+     obtain ⟨ty, hl, hv⟩ := h.2 x l hx
+     exact ⟨ty, by simpa [lookup, Frame.find] using hl, hv⟩⟩
 
 theorem assign_sim (S : Sem V) (fuel : Nat) (hConst : ∀ l, ∃ c, constOf S l = some c) {ρ : Store V}
-    {L : Locals} (hA : NoAttrBind L) {x : Name} {e : Expr} {lo : VSet} {env : Env V} {s s' : St}
+    {L : Locals} (hA : NoAttrBind S L) {x : Name} {e : Expr} {lo : VSet} {env : Env V} {s s' : St}
     {L' : Locals} {ns : List Node} {pv : PV V}
     (hL : VisOK s.used L) (hR : StoreRel S ρ L env s.castable) (hs : CastSub s)
+    (hx : S.attrLit x = none)
     (he : evalExpr S ρ e = some pv) (h : convStmt L (.assign x e) lo s = .ok ((L', ns), s')) :
     ∃ env', evalNodes S fuel env ns = some env' ∧ StoreRel S (ρ.set x pv) L' env' s'.castable
-      ∧ Ext env env' s s' ∧ CastSub s' ∧ VisOK s'.used L' ∧ NoAttrBind L' ∧ Mono s s' := by
+      ∧ Ext env env' s s' ∧ CastSub s' ∧ VisOK s'.used L' ∧ NoAttrBind S L' ∧ Mono s s' := by
   have hfr := convStmt_fresh L _ lo h
   have hsc := convStmt_scope L _ lo hL (fun x hx => hx) h
   unfold convStmt at h
@@ -847,7 +989,7 @@ theorem assign_sim (S : Sem V) (fuel : Nat) (hConst : ∀ l, ∃ c, constOf S l 
   cases e1; subst e2
   obtain ⟨env1, ev1, r1, x1, c1⟩ := convExpr_sim S fuel hConst ρ L hA e _ hL hR hs he h1
   have ht := convExpr_result_used hL h1
-  refine ⟨env1, ev1, ?_, x1, c1, hsc.2.mono (fun y hy => after_in_used hfr hy), hA.bindVal _ _, hfr.1⟩
+  refine ⟨env1, ev1, ?_, x1, c1, hsc.2.mono (fun y hy => after_in_used hfr hy), hA.bindVal _ _ hx, hfr.1⟩
   intro y pv' hy
   unfold Store.set at hy
   by_cases hyx : y = x
@@ -885,16 +1027,21 @@ theorem storeRel_bindVals {S : Sem V} {env : Env V} {cast : List Name} :
     | nil => exact hR
     | cons x xs => exact ih xs (storeRel_bind hR hr)
 
-theorem NoAttrBind.bindVals {L : Locals} (h : NoAttrBind L) : ∀ (xs ns : List Name),
-    NoAttrBind (OV.C01.bindVals L xs ns) := by
+theorem NoAttrBind.bindVals {S : Sem V} {L : Locals} (h : NoAttrBind S L) : ∀ (xs ns : List Name),
+    (∀ x, x ∈ xs → S.attrLit x = none) → NoAttrBind S (OV.C01.bindVals L xs ns) := by
   intro xs
   induction xs generalizing L with
-  | nil => intro ns; cases ns <;> exact h
+  | nil => intro ns _; cases ns <;> exact h
   | cons x xs ih =>
-    intro ns
+    intro ns hxs
     cases ns with
     | nil => exact h
-    | cons n ns => exact ih (h.bindVal x n) ns
+    | cons n ns =>
+      exact ih (h.bindVal x n (hxs x List.mem_cons_self)) ns (fun y hy => hxs y (List.mem_cons_of_mem _ hy))
+
+theorem NoAttrBind.bindValsT {S : Sem V} {L : Locals} (h : NoAttrBind S L) (xs ns : List Name)
+    (hT : TFree S xs) : NoAttrBind S (OV.C01.bindVals L xs ns) :=
+  h.bindVals xs ns (fun x hx => (hT x hx).1)
 
 theorem AttrMono.bindVal (L : Locals) (x n : Name) : AttrMono L (bindVar L x (.val n)) := by
   intro y p ty hl
@@ -922,7 +1069,7 @@ theorem all2_length {α β : Type} {R : α → β → Prop} {as : List α} {bs :
   | cons _ _ _ _ _ _ ih => simp [ih]
 
 theorem convParExprs_sim (S : Sem V) (fuel : Nat) (hConst : ∀ l, ∃ c, constOf S l = some c) (ρ : Store V)
-    (L : Locals) (hA : NoAttrBind L) : ∀ (xs : List Name) (es : List Expr) {env : Env V} {s s' : St}
+    (L : Locals) (hA : NoAttrBind S L) : ∀ (xs : List Name) (es : List Expr) {env : Env V} {s s' : St}
     {ts : List Name} {ns : List Node} {pvs : List (PV V)}, xs.length = es.length →
     VisOK s.used L → StoreRel S ρ L env s.castable → CastSub s →
     evalExprs S ρ es = some pvs → convParExprs L xs es s = .ok ((ts, ns), s') →
@@ -971,12 +1118,13 @@ theorem convParExprs_sim (S : Sem V) (fuel : Nat) (hConst : ∀ l, ∃ c, constO
           exact ⟨env2, evalNodes_seq ev1 ev2, All2.cons _ _ _ _ (r1.ext ht1 x2) r2, x1.trans m1 x2, c2⟩
 
 theorem par_sim (S : Sem V) (fuel : Nat) (hConst : ∀ l, ∃ c, constOf S l = some c) {ρ : Store V}
-    {L : Locals} (hA : NoAttrBind L) {xs : List Name} {es : List Expr} {lo : VSet} {env : Env V} {s s' : St}
+    {L : Locals} (hA : NoAttrBind S L) {xs : List Name} {es : List Expr} {lo : VSet} {env : Env V} {s s' : St}
     {L' : Locals} {ns : List Node} {pvs : List (PV V)}
     (hL : VisOK s.used L) (hR : StoreRel S ρ L env s.castable) (hs : CastSub s)
+    (hxs : ∀ x, x ∈ xs → S.attrLit x = none)
     (he : evalExprs S ρ es = some pvs) (h : convStmt L (.par xs es) lo s = .ok ((L', ns), s')) :
     ∃ env', evalNodes S fuel env ns = some env' ∧ StoreRel S (ρ.setMany xs pvs) L' env' s'.castable
-      ∧ Ext env env' s s' ∧ CastSub s' ∧ VisOK s'.used L' ∧ NoAttrBind L' ∧ Mono s s' := by
+      ∧ Ext env env' s s' ∧ CastSub s' ∧ VisOK s'.used L' ∧ NoAttrBind S L' ∧ Mono s s' := by
   have hfr := convStmt_fresh L _ lo h
   have hsc := convStmt_scope L _ lo hL (fun x hx => hx) h
   unfold convStmt at h
@@ -991,7 +1139,7 @@ theorem par_sim (S : Sem V) (fuel : Nat) (hConst : ∀ l, ∃ c, constOf S l = s
     cases q1; subst q2
     obtain ⟨env1, ev1, r1, x1, c1⟩ := convParExprs_sim S fuel hConst ρ L hA xs es (by simpa using hl) hL hR hs he h1
     exact ⟨env1, ev1, storeRel_bindVals r1 xs (hR.ext hL x1), x1, c1,
-      hsc.2.mono (fun y hy => after_in_used hfr hy), hA.bindVals _ _, hfr.1⟩
+      hsc.2.mono (fun y hy => after_in_used hfr hy), hA.bindVals _ _ hxs, hfr.1⟩
 
 theorem emitCopy_sim (S : Sem V) (fuel : Nat) (hId : ∀ v, S.op "" "Identity" [some v] [] = some [v])
     {env : Env V} {o sug x : Name} {ns : List Node} {s s' : St} {v : V}
@@ -1010,7 +1158,7 @@ theorem toTensor_eq_plain (S : Sem V) (pv : PV V) : toTensor S pv = plainVal S p
   cases pv <;> rfl
 
 theorem convRetOne_sim (S : Sem V) (fuel : Nat) (hConst : ∀ l, ∃ c, constOf S l = some c)
-    (hId : ∀ v, S.op "" "Identity" [some v] [] = some [v]) {ρ : Store V} {L : Locals} (hA : NoAttrBind L)
+    (hId : ∀ v, S.op "" "Identity" [some v] [] = some [v]) {ρ : Store V} {L : Locals} (hA : NoAttrBind S L)
     {inputs : List Name} {e : Expr} {pref : Name} {outs : List Name} {o : Name} {ns : List Node}
     {env : Env V} {s s' : St} {pv : PV V} {v : V}
     (hL : VisOK s.used L) (hR : StoreRel S ρ L env s.castable) (hs : CastSub s)
@@ -1107,7 +1255,7 @@ theorem mapM_ext {env env' : Env V} {s s' : St} {outs : List Name} {vals : List 
         simp [ih hr (fun o ho => hu o (List.mem_cons_of_mem _ ho))]
 
 theorem convRetAll_sim (S : Sem V) (fuel : Nat) (hConst : ∀ l, ∃ c, constOf S l = some c)
-    (hId : ∀ v, S.op "" "Identity" [some v] [] = some [v]) {ρ : Store V} {L : Locals} (hA : NoAttrBind L)
+    (hId : ∀ v, S.op "" "Identity" [some v] [] = some [v]) {ρ : Store V} {L : Locals} (hA : NoAttrBind S L)
     {inputs : List Name} {single : Bool} : ∀ (es : List Expr) (i : Nat) (outs : List Name) {env : Env V}
     {s s' : St} {outs' : List Name} {ns : List Node} {pvs : List (PV V)} {vals vs : List V},
     VisOK s.used L → StoreRel S ρ L env s.castable → CastSub s →
@@ -1181,7 +1329,8 @@ theorem convTop_sl_sim (S : Sem V) (fuel : Nat) (hConst : ∀ l, ∃ c, constOf 
     (hId : ∀ v, S.op "" "Identity" [some v] [] = some [v]) {inputs : List Name} {rc : Option Nat} :
     ∀ (body : List Stmt) (L : Locals) {ρ : Store V} {env : Env V} {s s' : St} {ns : List Node}
       {outs : List Name} {pvs : List (PV V)} {vs : List V},
-      straightLine body = true → NoAttrBind L → VisOK s.used L → StoreRel S ρ L env s.castable → CastSub s →
+      straightLine body = true → (∀ x, x ∈ targetsBlock body → S.attrLit x = none) →
+      NoAttrBind S L → VisOK s.used L → StoreRel S ρ L env s.castable → CastSub s →
       evalBlock S fuel body ρ = some (.returned pvs) → pvs.mapM (toTensor S) = some vs →
       convTop inputs rc L body [] s = .ok ((ns, outs), s') →
       ∃ env', evalNodes S fuel env ns = some env' ∧ outs.mapM env' = some vs := by
@@ -1189,7 +1338,11 @@ theorem convTop_sl_sim (S : Sem V) (fuel : Nat) (hConst : ∀ l, ∃ c, constOf 
   induction body with
   | nil => intro L ρ env s s' ns outs pvs vs hsl; simp [straightLine] at hsl
   | cons st ss ih =>
-    intro L ρ env s s' ns outs pvs vs hsl hA hL hR hs he hv h
+    intro L ρ env s s' ns outs pvs vs hsl ht hA hL hR hs he hv h
+    have htS : ∀ x, x ∈ targetsStmt st → S.attrLit x = none := fun x hx =>
+      ht x (by simp [targetsBlock, hx])
+    have htR : ∀ x, x ∈ targetsBlock ss → S.attrLit x = none := fun x hx =>
+      ht x (by simp [targetsBlock, hx])
     cases st with
     | assign x e =>
       simp only [straightLine] at hsl
@@ -1208,8 +1361,8 @@ theorem convTop_sl_sim (S : Sem V) (fuel : Nat) (hConst : ∀ l, ∃ c, constOf 
         try dsimp only at h
         obtain ⟨q1, q2⟩ := pure_ok h
         cases q1
-        obtain ⟨env1, ev1, hR1, x1, c1, hL1, hA1, m1⟩ := assign_sim S fuel hConst hA hL hR hs hee h1
-        obtain ⟨env2, ev2, hm2⟩ := ih L1 hsl hA1 hL1 hR1 c1 he hv h2
+        obtain ⟨env1, ev1, hR1, x1, c1, hL1, hA1, m1⟩ := assign_sim S fuel hConst hA hL hR hs (htS _ (by simp [targetsStmt])) hee h1
+        obtain ⟨env2, ev2, hm2⟩ := ih L1 hsl htR hA1 hL1 hR1 c1 he hv h2
         exact ⟨env2, evalNodes_seq ev1 ev2, hm2⟩
     | skip =>
       simp only [straightLine] at hsl
@@ -1227,7 +1380,7 @@ theorem convTop_sl_sim (S : Sem V) (fuel : Nat) (hConst : ∀ l, ∃ c, constOf 
       unfold convStmt at h1
       obtain ⟨q1, q2⟩ := pure_ok h1
       cases q1; subst q2
-      obtain ⟨env2, ev2, hm2⟩ := ih L hsl hA hL hR hs he hv h2
+      obtain ⟨env2, ev2, hm2⟩ := ih L hsl htR hA hL hR hs he hv h2
       exact ⟨env2, by simpa using ev2, hm2⟩
     | ret es bare =>
       cases ss with
@@ -1288,8 +1441,8 @@ theorem convTop_sl_sim (S : Sem V) (fuel : Nat) (hConst : ∀ l, ∃ c, constOf 
           try dsimp only at h
           obtain ⟨q1, q2⟩ := pure_ok h
           cases q1
-          obtain ⟨env1, ev1, hR1, x1, c1, hL1, hA1, m1⟩ := par_sim S fuel hConst hA hL hR hs hee h1
-          obtain ⟨env2, ev2, hm2⟩ := ih L1 hsl hA1 hL1 hR1 c1 he hv h2
+          obtain ⟨env1, ev1, hR1, x1, c1, hL1, hA1, m1⟩ := par_sim S fuel hConst hA hL hR hs (fun x hx => htS x (by simp [targetsStmt, hx])) hee h1
+          obtain ⟨env2, ev2, hm2⟩ := ih L1 hsl htR hA1 hL1 hR1 c1 he hv h2
           exact ⟨env2, evalNodes_seq ev1 ev2, hm2⟩
         · simp [hlen] at he
     | tuple xs e => simp [straightLine] at hsl
@@ -1315,14 +1468,6 @@ theorem paramFrame_vals : ∀ (ps : List Param), AllTensorParams ps → ∀ q, q
     · exact ih (fun p' hp' => hall p' (List.mem_cons_of_mem _ hp')) q hq
     · subst hq; exact ⟨x, rfl⟩
 
-theorem noAttrBind_params {ps : List Param} (h : AllTensorParams ps) : NoAttrBind [paramFrame ps] := by
-  intro x p ty hl
-  obtain ⟨fr, hfr, hm⟩ := lookup_mem hl
-  simp only [List.mem_singleton] at hfr
-  subst hfr
-  obtain ⟨n, hn⟩ := paramFrame_vals ps h _ hm
-  cases hn
-
 theorem paramFrame_attr_ident : ∀ (ps : List Param) (k p : Name) (ty : AttrTy),
     (k, Bind.attr p ty) ∈ paramFrame ps → p = k ∧ k ∈ attrParams ps := by
   intro ps
@@ -1347,18 +1492,47 @@ theorem paramFrame_attr_ident : ∀ (ps : List Param) (k p : Name) (ty : AttrTy)
       · cases h
         exact ⟨rfl, by simp [attrParams]⟩
 
-/-- Whatever the parameters, the parameter frame binds attribute parameters to themselves. -/
-theorem noAttrBind_paramFrame (ps : List Param) : NoAttrBind [paramFrame ps] := by
-  intro x p ty hl
-  obtain ⟨fr, hfr, hm⟩ := lookup_mem hl
-  simp only [List.mem_singleton] at hfr
-  subst hfr
-  exact (paramFrame_attr_ident ps x p ty hm).1
+theorem paramFrame_find_attr : ∀ (ps : List Param) (x : Name) (ty : AttrTy), (ps.map Param.name).Nodup →
+    Param.attr x ty ∈ ps → Frame.find (paramFrame ps) x = some (.attr x ty) := by
+  intro ps
+  induction ps with
+  | nil => intro x ty _ hx; cases hx
+  | cons q qs ih =>
+    intro x ty hn hx
+    simp only [List.map_cons, List.nodup_cons] at hn
+    rcases List.mem_cons.mp hx with hq | hx'
+    · subst hq
+      simp only [paramFrame, Frame.find_append]
+      rw [paramFrame_find_none qs x (by simpa [Param.name] using hn.1)]
+      simp [Frame.find]
+    · cases q with
+      | tensor y =>
+        simp only [paramFrame, Frame.find_append]
+        rw [ih x ty hn.2 hx']
+      | attr y ty' =>
+        simp only [paramFrame, Frame.find_append]
+        rw [ih x ty hn.2 hx']
+
+/-- The parameter frame binds attribute parameters to themselves; the attribute parameters the closure gives a
+value are among them (`hσ`). -/
+theorem noAttrBind_paramFrame {S : Sem V} (ps : List Param) (hn : (ps.map Param.name).Nodup)
+    (hσ : ∀ x l, S.attrLit x = some l → ∃ ty, Param.attr x ty ∈ ps ∧ AttrVal S x ty l) :
+    NoAttrBind S [paramFrame ps] := by
+  refine ⟨fun x p ty hl => ?_, fun x l hx => ?_⟩
+  · obtain ⟨fr, hfr, hm⟩ := lookup_mem hl
+    simp only [List.mem_singleton] at hfr
+    subst hfr
+    exact (paramFrame_attr_ident ps x p ty hm).1
+  · obtain ⟨ty, hm, hv⟩ := hσ x l hx
+    refine ⟨ty, ?_, hv⟩
+    simp only [lookup]
+    rw [paramFrame_find_attr ps x ty hn hm]
 
 /-- Attribute parameters that the body never binds are free in the parameter frame. -/
-theorem freeOf_paramFrame (ps : List Param) (ts : List Name)
-    (h : ∀ p, p ∈ attrParams ps → p ∉ ts) : FreeOf [paramFrame ps] ts := by
-  intro x hx p ty hl
+theorem freeOf_paramFrame {S : Sem V} (ps : List Param) (ts : List Name)
+    (h : ∀ p, p ∈ attrParams ps → p ∉ ts) (hP : ∀ x, x ∈ S.pyVars → x ∉ ts) : FreeOf S [paramFrame ps] ts := by
+  intro x hx
+  refine ⟨fun p ty hl => ?_, fun hm => hP x hm hx⟩
   obtain ⟨fr, hfr, hm⟩ := lookup_mem hl
   simp only [List.mem_singleton] at hfr
   subst hfr
@@ -1405,6 +1579,8 @@ theorem setMany_dom : ∀ (xs : List Name) (vs : List V) (eb : Env V) (x : Name)
 theorem convert_correct_sl (S : Sem V) (hConst : ∀ l, ∃ c, constOf S l = some c)
     (hId : ∀ v, S.op "" "Identity" [some v] [] = some [v]) {f : Func} {g : Graph}
     (hsl : straightLine f.body = true)
+    (hσ : ∀ x l, S.attrLit x = some l → ∃ ty, Param.attr x ty ∈ f.params ∧ AttrVal S x ty l)
+    (ht : ∀ x, x ∈ targetsBlock f.body → S.attrLit x = none)
     (hnames : (f.params.map Param.name).Nodup) (h : convert f = .ok g)
     {fuel : Nat} {args vs : List V} (he : evalFunc S fuel f args = some vs) :
     evalGraph S fuel g args = some vs := by
@@ -1455,8 +1631,8 @@ theorem convert_correct_sl (S : Sem V) (hConst : ∀ l, ∃ c, constOf S l = som
                 refine ⟨x, ?_, hev, by simp⟩
                 simp only [lookup]
                 rw [paramFrame_find _ x hnames hmem]
-            obtain ⟨env', ev, hm⟩ := convTop_sl_sim S fuel hConst hId f.body [paramFrame f.params] hsl
-              (noAttrBind_paramFrame _) hL hR (fun n hn => by cases hn) hb he hc
+            obtain ⟨env', ev, hm⟩ := convTop_sl_sim S fuel hConst hId f.body [paramFrame f.params] hsl ht
+              (noAttrBind_paramFrame _ hnames hσ) hL hR (fun n hn => by cases hn) hb he hc
             unfold evalGraph
             simp only [hlen, if_true, ev]
             exact hm
